@@ -717,6 +717,10 @@ func (c *Ctx) Add(a, b *Term) *Term {
 	if a.IsConst() { // constants to the right
 		a, b = b, a
 	}
+	// zext(bit) - 1  ->  ite(bit, 0, ones)   (mask idiom ^(uint(b)-1))
+	if b.IsConst() && isAllOnes(b) && a.Op == OpConcat && len(a.Args) == 2 && isZero(a.Args[0]) && a.Args[1].W == 1 {
+		return c.Ite(c.Eq(a.Args[1], c.Const(1, 1)), c.Const(a.W, 0), b)
+	}
 	// (x + k1) + k2
 	if b.IsConst() && a.Op == OpAdd && a.Args[1].IsConst() {
 		return c.Add(a.Args[0], c.Add(a.Args[1], b))
@@ -862,7 +866,20 @@ func (c *Ctx) SRem(a, b *Term) *Term {
 
 // bitwise ops push through concat structure
 
+func isConstIte(t *Term) bool {
+	return t.Op == OpIte && t.Args[1].IsConst() && t.Args[2].IsConst()
+}
+
 func (c *Ctx) bitwise(op Op, a, b *Term) *Term {
+	if op == OpBvAnd || op == OpBvOr {
+		// (ite c k1 k2) op x  ->  ite c (k1 op x) (k2 op x)   for mask-like constants
+		if isConstIte(b) && !isConstIte(a) {
+			a, b = b, a
+		}
+		if isConstIte(a) && (isZero(a.Args[1]) || isAllOnes(a.Args[1])) && (isZero(a.Args[2]) || isAllOnes(a.Args[2])) {
+			return c.Ite(a.Args[0], c.bitwise(op, a.Args[1], b), c.bitwise(op, a.Args[2], b))
+		}
+	}
 	if a.Op == OpConcat || b.Op == OpConcat {
 		// only split when it pays: both structured, or the other is const
 		if (a.Op == OpConcat && b.Op == OpConcat) || a.IsConst() || b.IsConst() || op != OpBvXor || true {
@@ -1035,6 +1052,9 @@ func (c *Ctx) BvNot(a *Term) *Term {
 	}
 	if a.Op == OpBvNot {
 		return a.Args[0]
+	}
+	if a.Op == OpIte && a.Args[1].IsConst() && a.Args[2].IsConst() {
+		return c.Ite(a.Args[0], c.BvNot(a.Args[1]), c.BvNot(a.Args[2]))
 	}
 	if a.Op == OpConcat {
 		out := make([]*Term, len(a.Args))
